@@ -576,14 +576,18 @@ def jobs(tier):
             for o0r in ((0, 3), (4, 7), (8, 10)):
                 add("h_dyn", ms=ms, K=2, PRE=3, NKEY=3, typed=False, o0r=o0r)
         else:
+            for o0 in range(11):
+                add("h_dyn", ms=ms, K=3, PRE=3, NKEY=3, o0=o0, typed=False)
             for o0 in range(14):
-                add("h_dyn", ms=ms, K=3, PRE=3, NKEY=4, o0=o0, typed=False)
+                add("h_dyn", ms=ms, K=2, PRE=3, NKEY=4, o0=o0, typed=False)
     if q:
         for o0 in range(11):
             add("h_dyn", symbolic_ms=True, K=2, PRE=3, NKEY=3, o0=o0, typed=False)
     else:
+        for o0 in range(11):
+            add("h_dyn", symbolic_ms=True, K=3, PRE=3, NKEY=3, o0=o0, typed=False)
         for o0 in range(14):
-            add("h_dyn", symbolic_ms=True, K=3, PRE=3, NKEY=4, o0=o0, typed=False)
+            add("h_dyn", symbolic_ms=True, K=2, PRE=3, NKEY=4, o0=o0, typed=False)
     for ms in ("none", "two"):
         for o0r in ((0, 5), (6, 10)):
             add("h_dyn", ms=ms, K=2, PRE=2, NKEY=3, typed=True, o0r=o0r)
@@ -597,7 +601,7 @@ def jobs(tier):
 LEVEL = "other"
 BOUNDS = {
     "quick": "(A) all ordered pairs of 24 call patterns (ints/floats/bools/strs/tuples/None, positional vs keyword, keyword order) x typed, maxsize None and 2, sequence p,q,p; (B) from every state reachable by calling 0..3 distinct keys (of 3; thorough: of 4) in any order: every sequence of 2 operations over {call k, failing call k, cache_discard k, cache_clear, cache_info} for maxsize in {None,-3,0,1,2,3,default} against the real C functools.lru_cache and a reference model, plus the same with maxsize a symbolic unbounded int (>= -2) against the model; (C) methods/classmethods/staticmethods: sequences of 2 operations over two (falsy) instances x 3 keys, clear, discard; (D) 10 decorator forms",
-    "thorough": "(B) 4 keys and 3 operations, (C) 3 operations",
+    "thorough": "(B) 3 operations over 3 keys and 2 operations over 4 keys (3 operations over 4 keys did not exhaust within 900 s per first operation), (C) 3 operations",
 }
 OUTSIDE = ["histories longer than prefix+3 (k-step simulation from every canonical state replaces length-40 histories; assumes the observable state - ordered contents and counters - determines future behaviour)", "more than 4 distinct keys in the dynamics part, maxsize 4..5 concretely (covered by the symbolic-maxsize harness against the model only)", "unhashable arguments"]
 NONTRIVIAL_RULE = ">=2 operations executed on the path"
